@@ -7,6 +7,8 @@ import (
 	"fmt"
 	"go/token"
 	"go/types"
+	"os"
+	"runtime/debug"
 	"sync"
 
 	"golang.org/x/tools/go/ssa"
@@ -1314,8 +1316,9 @@ func findEventDecoder(p *Program) *ssa.Function {
 
 type decCell struct {
 	canary int
-	kind   int // 0 = no stored status, 8..E = stored channel status of that kind
-	typ    int // meta type for canary FF, else -1
+	kind   int  // 0 = no stored status, 8..E = stored channel status of that kind
+	typ    int  // meta type for canary FF, else -1
+	large  bool // sysex / meta with a three-byte length of at least 16384 (beyond every small-buffer path of the reader)
 }
 
 type decResult struct {
@@ -1365,7 +1368,27 @@ func runDecodeCell(p *Program, dec, newRR *ssa.Function, cell decCell) decResult
 	v0 := mkSym(v0s)
 	d0, d1 := ex.byteSym("d0"), ex.byteSym("d1")
 	typ := mkConst(int64(cell.typ), 8, false)
+	// large cells: length L = 16384*h + 128*m + l with h = 1 (three-byte canonical VLQ 80|h 80|m l)
+	var lenBytes []Val
+	var lenTerm *Term
+	if cell.large {
+		hs, msy, ls := ex.syms.Get("lh", 8, false), ex.syms.Get("lm", 8, false), ex.syms.Get("ll", 8, false)
+		st.refineSym(hs, 1, 1) // most significant group fixed: L in 16384..32767 (keeps the lower bound visible in the bit view)
+		st.refineSym(msy, 0, 127)
+		st.refineSym(ls, 0, 127)
+		lenBytes = []Val{st.Arith(token.OR, mkSym(hs), mkConst(0x80, 8, false), ""), st.Arith(token.OR, mkSym(msy), mkConst(0x80, 8, false), ""), mkSym(ls)}
+		// value of the quantity by the SMF definition: the 7-bit groups concatenated, most significant first
+		g := func(sy *Sym) *IntV { return st.Convert(mkSym(sy), 32, false) }
+		val := st.Arith(token.OR, st.Arith(token.OR, st.Shift(token.SHL, g(hs), 14), st.Shift(token.SHL, g(msy), 7), ""), g(ls), "")
+		lenTerm = st.TermOf(st.Convert(val, 64, true))
+	}
 	switch {
+	case isSysex && cell.large:
+		elems = lenBytes
+		res.class = "sysex F0/F7, length >= 16384"
+	case isMeta && cell.large:
+		elems = append([]Val{typ}, lenBytes...)
+		res.class = "meta FF, length >= 16384"
 	case isSysex:
 		elems = []Val{v0}
 		res.class = "sysex F0/F7"
@@ -1435,13 +1458,17 @@ func runDecodeCell(p *Program, dec, newRR *ssa.Function, cell decCell) decResult
 				return
 			}
 			got, okg := ex.sliceSegs(o.St, msg)
-			if !okg || !segsEqual(o.St.dropEmptyRuns(got), o.St.dropEmptyRuns(want), o.St.sameVal) {
+			if !okg || !segsEqualIn(o.St, o.St.dropEmptyRuns(got), o.St.dropEmptyRuns(want)) {
 				fail("decoded message %s, SMF 1.0 grammar gives %s", arrayString(&ArrayV{Segs: got}), arrayString(&ArrayV{Segs: want}))
 			}
 			if !ex.freshSlice(o, msg) {
 				fail("the decoded message shares storage that outlives the call (a buffer of the reader or a package-level scratch buffer): the events of a track would all show the bytes of the last one")
+			} else if !msg.Nil && ex.reachableFrom(o.St, rp)[msg.Obj] {
+				fail("after decoding, the reader still holds a reference to the storage of the message it returned (a buffer it keeps for the next packet): a later event overwrites the bytes of this one")
 			}
-			if rdr == nil || !termEq(o.St.TermOf(rdr.Pos), consumed) {
+			if rdr == nil {
+				fail("the source reader is no longer tracked after decoding (wrapped or replaced): cannot tell how many bytes were consumed")
+			} else if !(termEq(o.St.TermOf(rdr.Pos), consumed) || o.St.sameInt(o.St.Convert(rdr.Pos, 64, true), &IntV{W: 64, Signed: true, T: consumed})) {
 				fail("consumed %v bytes after the first byte, grammar says %s", rdr.Pos, consumed)
 			}
 			if ai == nil || !o.St.sameInt(ai, wantStatus) {
@@ -1451,7 +1478,21 @@ func runDecodeCell(p *Program, dec, newRR *ssa.Function, cell decCell) decResult
 		switch {
 		case isSysex || isMeta:
 			if isErr {
-				continue // short payload (fewer than v0 bytes left)
+				// an error is right only if the source ends before the event does (fewer payload bytes left than declared);
+				// any complete sysex / meta event, whatever its type and length, is valid and must be decoded
+				hdrE, lenE := int64(1), &IntV{W: 64, Signed: true, T: symTerm(v0s)}
+				if isMeta {
+					hdrE = 2
+				}
+				if cell.large {
+					hdrE += 2
+					lenE = &IntV{W: 64, Signed: true, T: lenTerm}
+				}
+				need := o.St.Arith(token.ADD, lenE, mkConst(hdrE, 64, true), "")
+				if short, k := o.St.Decide("<", o.St.Convert(src.Len, 64, true), need); !(k && short) {
+					fail("a complete event (%d header bytes + the declared payload present in the source) is rejected with an error [%s]", hdrE, outcomeWitness(o))
+				}
+				continue
 			}
 			succ++
 			hdr := 1
@@ -1459,6 +1500,17 @@ func runDecodeCell(p *Program, dec, newRR *ssa.Function, cell decCell) decResult
 			if isMeta {
 				hdr = 2
 				pre = append(pre, typ, v0) // canonical VLQ of a value < 128 is the byte itself
+			}
+			if cell.large {
+				hdr = 3
+				pre = []Val{mkConst(int64(canary), 8, false)}
+				if isMeta {
+					hdr = 4
+					pre = append(append(pre, typ), lenBytes...)
+				}
+				want := []Seg{{Elems: pre}, {Run: &Run{Src: "payload", Off: constTerm(int64(hdr)), Len: lenTerm}}}
+				expectMsg(normSegs(want), termAdd(constTerm(int64(hdr)), lenTerm, 1), mkConst(0, 8, false))
+				continue
 			}
 			want := []Seg{{Elems: pre}, {Run: &Run{Src: "payload", Off: constTerm(int64(hdr)), Len: symTerm(v0s)}}}
 			expectMsg(normSegs(want), termAdd(constTerm(int64(hdr)), symTerm(v0s), 1), mkConst(0, 8, false))
@@ -1532,13 +1584,15 @@ func ruleEventDecode(c *Ctx, rule, rulePanic string) {
 		for _, kind := range []int{0, 8, 9, 0xA, 0xB, 0xC, 0xD, 0xE} {
 			if canary == 0xFF {
 				for t := 0; t < 256; t++ {
-					cells = append(cells, decCell{canary, kind, t})
+					cells = append(cells, decCell{canary, kind, t, false})
 				}
 			} else {
-				cells = append(cells, decCell{canary, kind, -1})
+				cells = append(cells, decCell{canary, kind, -1, false})
 			}
 		}
 	}
+	// large payloads (length >= 16384, three-byte VLQ): sysex, F7 packet and a text meta event
+	cells = append(cells, decCell{0xF0, 0, -1, true}, decCell{0xF7, 0x9, -1, true}, decCell{0xFF, 0, 0x01, true})
 	results := make([]decResult, len(cells))
 	var wg sync.WaitGroup
 	sem := make(chan bool, 16)
@@ -1550,6 +1604,9 @@ func ruleEventDecode(c *Ctx, rule, rulePanic string) {
 			defer func() { <-sem }()
 			defer func() {
 				if r := recover(); r != nil {
+					if os.Getenv("ABSDEBUG") != "" {
+						fmt.Fprintf(os.Stderr, "decode cell panic: %v\n%s\n", r, debug.Stack())
+					}
 					results[i] = decResult{cell: cells[i], class: "checker", why: fmt.Sprintf("checker panic: %v", r)}
 				}
 			}()
@@ -2019,4 +2076,36 @@ func ruleChunkLoop(c *Ctx, rule string) {
 		}
 		c.Check(ok && n > 0, rule, fmt.Sprintf("%d alien chunk(s) before a track chunk are skipped", nAlien), p.Pos(rd.Pos()), "the first event returned is the track's first event (FF 2F 00), no error", why)
 	}
+}
+
+// segsEqualIn: like segsEqual, but run offsets and lengths are compared as values in the state (an affine term and the
+// bit-composed form of the same number are equal), elements with sameVal.
+func segsEqualIn(st *State, a, b []Seg) bool {
+	a, b = normSegs(a), normSegs(b)
+	if len(a) != len(b) {
+		return false
+	}
+	same := func(x, y *Term) bool {
+		return termEq(x, y) || st.sameInt(&IntV{W: 64, Signed: true, T: x}, &IntV{W: 64, Signed: true, T: y})
+	}
+	for i := range a {
+		if (a[i].Run == nil) != (b[i].Run == nil) {
+			return false
+		}
+		if a[i].Run != nil {
+			if a[i].Run.Src != b[i].Run.Src || !same(a[i].Run.Off, b[i].Run.Off) || !same(a[i].Run.Len, b[i].Run.Len) {
+				return false
+			}
+			continue
+		}
+		if len(a[i].Elems) != len(b[i].Elems) {
+			return false
+		}
+		for j := range a[i].Elems {
+			if !st.sameVal(a[i].Elems[j], b[i].Elems[j]) {
+				return false
+			}
+		}
+	}
+	return true
 }
